@@ -150,7 +150,8 @@ func findEndTime(moov *mp4.MoovBox, durationMS int) (endTime, endTimescale uint6
 	//trakDur := float64(trak.Tkhd.Duration) / float64(moov.Mvhd.Timescale)
 	//fmt.Printf("video trak %d duration = %.3fs\n", trak.Tkhd.TrackID, trakDur)
 	endTimescale = uint64(syncTrak.Mdia.Mdhd.Timescale)
-	endTime = uint64(durationMS) * endTimescale / 1000
+	// Round up so that a sync sample starting just before the requested duration is not taken as the end
+	endTime = (uint64(durationMS)*endTimescale + 999) / 1000
 
 	stbl := syncTrak.Mdia.Minf.Stbl
 	stts := stbl.Stts // TimeToSampleBox
